@@ -97,20 +97,32 @@ func (vm *VisitorModel) ComputeActivity(r *Run, g *Grammar, transparentTable Tab
 	vm.Root = root
 	type item struct {
 		V, R, via string
+		facts     map[string]bool // receiver fields the handlers above, run by the same visitor, have set to non-nil values
 	}
-	queue := []item{{root, "oC_Cypher", root + "@oC_Cypher"}}
+	factKey := func(f map[string]bool) string { return strings.Join(sortedKeys(f), ",") }
+	queue := []item{{root, "oC_Cypher", root + "@oC_Cypher", nil}}
 	seen := map[string]bool{}
 	for len(queue) > 0 {
 		it := queue[0]
 		queue = queue[1:]
 		key := it.V + "×" + it.R
-		if seen[key] {
+		if seen[key+"|"+factKey(it.facts)] {
 			continue
 		}
-		seen[key] = true
+		seen[key+"|"+factKey(it.facts)] = true
 		pc := &pairClass{V: it.V, R: it.R, Via: it.via}
-		act.Pairs[key] = pc
-		act.order = append(act.order, key)
+		if prev := act.Pairs[key]; prev != nil {
+			// reached again with other facts: explore, keep the first classification unless this one is worse
+			pc = &pairClass{V: it.V, R: it.R, Via: it.via}
+			defer func(prev, pc *pairClass) {
+				if prev.Class != "dropped" && pc.Class == "dropped" {
+					*prev = *pc
+				}
+			}(prev, pc)
+		} else {
+			act.Pairs[key] = pc
+			act.order = append(act.order, key)
+		}
 		vt := vm.Types[it.V]
 		if vt == nil {
 			pc.Class = "unknown-visitor"
@@ -151,7 +163,7 @@ func (vm *VisitorModel) ComputeActivity(r *Run, g *Grammar, transparentTable Tab
 				continue
 			}
 			for _, c := range g.Children(it.R) {
-				queue = append(queue, item{it.V, c, it.via + " > " + it.V + "@" + c})
+				queue = append(queue, item{it.V, c, it.via + " > " + it.V + "@" + c, it.facts})
 			}
 			continue
 		}
@@ -162,6 +174,17 @@ func (vm *VisitorModel) ComputeActivity(r *Run, g *Grammar, transparentTable Tab
 			pc.Pos = exit.Decl.Pos()
 		}
 		// an Exit-only handler may also capture the text
+		below := it.facts
+		if enter != nil && len(enter.Establishes) > 0 {
+			below = map[string]bool{}
+			for f := range it.facts {
+				below[f] = true
+			}
+			for _, f := range enter.Establishes {
+				below[f] = true
+			}
+		}
+		enter, exit = enter.withFacts(it.facts), exit.withFacts(it.facts)
 		for _, d := range g.Derivations(it.R) {
 			tops, captured, _ := pushOutcome(enter, d)
 			if !captured && exit != nil {
@@ -187,12 +210,14 @@ func (vm *VisitorModel) ComputeActivity(r *Run, g *Grammar, transparentTable Tab
 				}
 				for _, t := range tops {
 					v := t
+					facts := below
 					if v == "" {
 						v = it.V
 					} else {
 						act.pushes++
+						facts = nil
 					}
-					queue = append(queue, item{v, s[2:], it.via + " > " + v + "@" + s[2:]})
+					queue = append(queue, item{v, s[2:], it.via + " > " + v + "@" + s[2:], facts})
 				}
 			}
 		}
